@@ -78,6 +78,7 @@ fn family(name: &str) -> Option<(Runner, Driver)> {
         "conform" => (fam_conform::run, fam_conform::drive),
         "validate" => (fam_validate::run, fam_validate::drive),
         "partial" => (fam_partial::run, fam_partial::drive),
+        "pstore" => (fam_partial::run_pstore, fam_partial::drive),
         "tpe" => (fam_tpe::run, fam_tpe::drive),
         "query" => (fam_tpe::run_query, fam_tpe::drive),
         "typedgen" => (gen_typed::run, gen_typed::drive),
